@@ -813,6 +813,9 @@ func gen(repo string) (map[string]string, error) {
 	}
 	fact("`getSubnet`: allocates during filter iff `(reserve || isPoolSizeDefined) && subnetSet.Len() > 0`, in the first subnet of the sorted list, and returns the error of allocateDuringFilter (no nodes are offered then)",
 		"getSubnetReturnsAllocError", allocIf != nil && allocErr && strings.Contains(gsn.Src(allocIf.Body), "subnetSet.List()[0]"))
+	fact("`getSubnet`: without requested ranges a pod whose key already owns an address is answered with that address' node subnets (`ipInfos[0].NodeSubnets`) before anything else is looked at",
+		"getSubnetAnswersOwnedFirst", strings.Contains(gsn.Text, "if len(ipranges) == 0 { if len(ipInfos) > 0 { return ipInfos[0].NodeSubnets, nil } }") &&
+			before(stmtIdx(gsn, gsn.Decl.Body.List, "if len(ipranges) == 0 {"), stmtIdx(gsn, gsn.Decl.Body.List, "p.supportReserveIPPolicy(")))
 	adf := forms["allocateDuringFilter"]
 	body := adf.Decl.Body.List
 	// the error of the re-keying is returned: `if err := f(); err != nil { return err }` or `return f()`
